@@ -17,5 +17,11 @@ case "$WHAT" in
     go build -o "$VERIF/bin/ibcsim.new" ./cmd/ibcsim || exit 2
     mv -f "$VERIF/bin/ibcsim.new" "$VERIF/bin/ibcsim"
     ;;
+  wasmsim)
+    # separate module: 08-wasm is its own Go module (cgo, libwasmvm); serves C29
+    cd "$VERIF/wasmsim" || exit 2
+    go build -o "$VERIF/bin/wasmsim.new" . || exit 2
+    mv -f "$VERIF/bin/wasmsim.new" "$VERIF/bin/wasmsim"
+    ;;
   *) echo "unknown build target $WHAT" >&2; exit 2;;
 esac
